@@ -120,6 +120,9 @@ class C18Step1D(_Base):
                         if op in ("fill_n_empty",):
                             continue
                         yield f"{subject}-{first}+{op}", dict(subject=subject, ops=[first, op])
+        # one batch that makes an adaptive axis grow on both sides at once (valid, and refused for its weights after the growth was prepared)
+        for op in ("fill_n_two_sided", "filln_two_sided_wshape"):
+            yield f"1d-adaptive-{op}", dict(subject="1d-adaptive", ops=[op])
         yield "1d-adaptive-iadd_adaptive_other", dict(subject="1d-adaptive", ops=["iadd_adaptive_other"])
         yield "1d-adaptive-iadd_adaptive_other+fill", dict(subject="1d-adaptive", ops=["iadd_adaptive_other", "fill"])
 
@@ -217,6 +220,8 @@ class C18Step1D(_Base):
             "iadd_adaptive_other": ("maybe", iadd(self._shifted(E, p, x)), "shifted"),
             "fill": ("ok", lambda: h.fill(v, w), None),
             "fill_n": ("ok", lambda: h.fill_n(np.asarray([v, v]), weights=np.asarray([w, 1])), None),
+            "fill_n_two_sided": ("ok", lambda: h.fill_n(np.asarray([v, v + 4])), None),
+            "filln_two_sided_wshape": ("ValueError", lambda: h.fill_n(np.asarray([v, v + 4]), weights=np.asarray([1])), None),
             "fill_n_empty": ("maybe", lambda: h.fill_n(np.asarray([], dtype=float)), None),
             "iadd_same": ("ok", iadd(g), g),
             "isub_le": ("maybe", isub(g), g),
